@@ -173,6 +173,9 @@ static void explore(const Case &c, const std::string &prop, vf::Stats &st, size_
       }
       transitions++;
       // ---------------- oracles on this edge
+      // a debugger front end looks at every state it reaches (location, activations and their variables, enabled set):
+      // the observers are part of every history, whatever they leave behind travels into the successor states
+      { vm.getCurrentBreak(); for (auto &act : vm.getActivations()) act.getActivationVariables(); vm.getEnabledBreakPoints(); vm.isDone(); vm.isSteppingModeEnabled(); }
       Exec e = exec_of(vm); const Exec &want = R.T[m.k];
       if (prop == "C05") {
         if (!(e == want)) { viol(ni, &a, "computation differs from the uninterrupted run at position " + std::to_string(m.k) + ": ip " + std::to_string(e.ip) + " (expected " + std::to_string(want.ip) + "), data words " + std::to_string(e.data.size()) + " (expected " + std::to_string(want.data.size()) + "), activations " + std::to_string(e.stack.size()) + " (expected " + std::to_string(want.stack.size()) + ")" + (e.data != want.data ? " [data differs]" : "")); continue; }
@@ -218,6 +221,18 @@ static void explore(const Case &c, const std::string &prop, vf::Stats &st, size_
         }
         if (!before.empty() && canon(vm) != before) { viol(ni, &a, "the end of the program is not absorbing: " + a.str() + " changed the state"); continue; }
         if (!before.empty() && a.t == Act::SINGLE && !rret) { viol(ni, &a, "executeSingle at the end of the program returned false"); continue; }
+      }
+      if ((prop == "C05" || prop == "C17") && a.t == Act::RESET && src.m.k > 0) {
+        // states are merged by what can be read from the machine; a reset machine merges with the initial state, so what it
+        // does afterwards is compared here, instruction by instruction, with the uninterrupted run of a new machine
+        Theo::VM p = clone(vm); fix(p);
+        for (size_t k = 1; k < R.T.size() && k <= 600; k++) {
+          if (p.isDone()) { viol(ni, &a, "run after reset(): the machine is done after " + std::to_string(k - 1) + " instructions, a new machine is not"); break; }
+          p.executeSingle();
+          if (!(exec_of(p) == R.T[k])) { viol(ni, &a, "run after reset(): after " + std::to_string(k) + " instructions the machine differs from a new machine's run (ip " + std::to_string(p.instruction_pointer) + " vs " + std::to_string(R.T[k].ip) + (exec_of(p).data != R.T[k].data ? ", data differs" : "") + ")"); break; }
+        }
+        if (failed) continue;
+        st.add("runs_after_reset_compared");
       }
       if (prop == "C19") { for (auto &act : vm.getActivations()) act.getActivationVariables(); vm.getCurrentBreak();  // the front end inspects every state it reaches
         std::string fe = orc::frames_exact(vm); if (!fe.empty()) { viol(ni, &a, fe); continue; } }
